@@ -90,7 +90,12 @@ specs = [("popen", lambda g: g.makegateway("popen//id=direct")),
          ("popen//python", lambda g: g.makegateway("popen//python=%s//id=py" % sys.executable)),
          ("socket//installvia", socket_gateway),
          ("popen//via", lambda g: (g.makegateway("popen//id=master"), g.makegateway("popen//via=master//id=proxied"))[1])]
-models = ["thread", "main_thread_only"] if MODE == "quick" else ["thread", "main_thread_only"]
+models = ["thread", "main_thread_only"]
+try:
+    import gevent  # noqa: F401  (remote execmodel only; the initiator stays on threads)
+    models.append("gevent")
+except ImportError:
+    pass
 ref = None
 for seed in ([1] if MODE == "quick" else [1, 2, 3]):
     for model in models:
